@@ -49,6 +49,50 @@ fn classify_c03(c: &RollCase, obs: &mut Obs) {
     obs.nontrivial = rescan && tie;
 }
 
+/// Wide integers: the same tie-heavy integer series shifted by a base beyond 2^53 (nanosecond
+/// timestamps, ids), where neighbouring values are no longer distinguishable after a cast to f64.
+/// Order statistics must still be exact: rank / arg are those of the small offsets, min / max are
+/// base + the offset's min / max (read back through an `Option<i64>` output).
+const BASES: [i64; 6] = [1 << 53, 1 << 60, -(1 << 62), i64::MAX - 4000, i64::MIN + 4000, 1_700_000_000_123_456_789];
+
+fn wide_integers(c: &RollCase, st: Stat, obs: &mut Obs) -> CheckResult {
+    use tvh::rollcheck::compare_series;
+    use tvh::sut;
+    let len = c.x.len();
+    let base = BASES[(len * 31 + c.w * 7 + c.mp.unwrap_or(3)) % BASES.len()];
+    if c.x.iter().flatten().any(|v| v.abs() > 3000.0) {
+        obs.class("offset_too_large_skipped");
+        return Ok(());
+    }
+    let name = format!("ts_v{}", st.name());
+    let err = |e: String| Fail { sig: format!("wide:{}:out-path", name), detail: e };
+    let nullable = c.tin.nullable();
+    let plain: Vec<i64> = c.x.iter().map(|v| base + v.unwrap_or(0.0) as i64).collect();
+    let opt: Vec<Option<i64>> = c.x.iter().map(|v| v.map(|v| base + v as i64)).collect();
+    let got: Series = if matches!(st, Stat::Min | Stat::Max) {
+        let r: Vec<Option<i64>> = if nullable {
+            sut::via_vec(len, c.out_buf, |buf| sut::roll_valid::<Vec<Option<i64>>, Option<i64>, Vec<Option<i64>>, Option<i64>>(&opt, st, c.w, c.mp, buf)).map_err(err)?
+        } else {
+            sut::via_vec(len, c.out_buf, |buf| sut::roll_valid::<Vec<i64>, i64, Vec<Option<i64>>, Option<i64>>(&plain, st, c.w, c.mp, buf)).map_err(err)?
+        };
+        r.into_iter().map(|v| v.map(|v| (v - base) as f64)).collect()
+    } else {
+        let r: Vec<f64> = if nullable {
+            sut::via_vec(len, c.out_buf, |buf| sut::roll_valid::<Vec<Option<i64>>, Option<i64>, Vec<f64>, f64>(&opt, st, c.w, c.mp, buf)).map_err(err)?
+        } else {
+            sut::via_vec(len, c.out_buf, |buf| sut::roll_valid::<Vec<i64>, i64, Vec<f64>, f64>(&plain, st, c.w, c.mp, buf)).map_err(err)?
+        };
+        tvh::conv::normalize(r)
+    };
+    let x: Series = if nullable { c.x.clone() } else { c.x.iter().map(|v| Some(v.unwrap_or(0.0))).collect() };
+    let exp = expect_series(st, &x, c.w, c.mp);
+    compare_series(&format!("wide:{}", name), &got, &exp, OutT::OptF64, len, obs).map_err(|f| Fail { sig: format!("wide:{}", f.sig), detail: format!("base {}: {}", base, f.detail) })?;
+    let distinct_neighbours = (1..len).any(|i| matches!((x[i - 1], x[i]), (Some(a), Some(b)) if a != b && (base as f64 + a) == (base as f64 + b)));
+    obs.class_if(distinct_neighbours, "f64_collapses_neighbours");
+    obs.nontrivial = len > c.w && distinct_neighbours;
+    Ok(())
+}
+
 fn main() {
     let mut p = Property::new(
         "C03",
@@ -97,6 +141,16 @@ fn main() {
                 obs.nontrivial = true;
                 Ok(())
             },
+        ));
+    }
+    const WIDE_INS: &[InT] = &[InT::I64, InT::OptI32];
+    for st in [Stat::Min, Stat::Max, Stat::ArgMin, Stat::ArgMax, Stat::Rank { pct: false, rev: false }, Stat::Rank { pct: true, rev: true }] {
+        p.add(sub(
+            &format!("wide_integers:ts_v{}", st.name()),
+            4000,
+            200000,
+            move |tier| roll_case_of(tier, WIDE_INS, &[OutT::OptF64], 48, 300, 1, TIE_CLASSES),
+            move |c: &RollCase, obs: &mut Obs| wide_integers(c, st, obs),
         ));
     }
     let _ = expect_series;
